@@ -4,6 +4,7 @@
 // distinguishable, several images per file, a point cloud in between.
 //@target src/image_writer.rs
 //@check image_payloads_round_trip serves=C06 fn=ImageWriter::{add_visual_reference,add_pinhole,add_spherical,add_cylindrical,finalize},E57Reader::{images,blob} note="BOUNDED: 3 files x (visual reference + one of pinhole / spherical / cylindrical), masks present or absent in every combination, payload lengths {0, 1, 1003, 1021, 5000} rotated, PNG / JPEG formats; every image and mask blob read back through E57Reader::blob and compared; formats, sizes and which blob belongs to which representation compared"
+//@check failing_sources_are_reported serves=C06 fn=ImageWriter::{add_visual_reference,add_pinhole,add_spherical,add_cylindrical} note="BOUNDED: for each of the four representations, an image source or a mask source that fails after 0 / 10 / 1500 bytes: the call returns an error (a failed image or mask transfer is never reported as success with the payload missing); with intact sources it succeeds and stores the mask descriptor"
 //@module
     use crate::{E57Reader, E57Writer, Record, RecordValue};
     use std::io::Cursor;
@@ -94,6 +95,43 @@
                 // and the point cloud between the images is intact
                 let pc = r.pointclouds()[0].clone();
                 assert_eq!(r.pointcloud_raw(&pc).expect(&what).count(), 300, "{what}");
+            }
+        }
+    }
+
+    /// a source that delivers `ok` bytes and then reports an I/O error
+    struct FailingSource { ok: usize, given: usize }
+    impl Read for FailingSource {
+        fn read(&mut self, buf: &mut [u8]) -> std::io::Result<usize> {
+            if self.given >= self.ok { return Err(std::io::Error::new(std::io::ErrorKind::Other, "source failed")); }
+            let n = buf.len().min(self.ok - self.given).min(700);
+            for b in buf[..n].iter_mut() { *b = 0xAB; }
+            self.given += n;
+            Ok(n)
+        }
+    }
+
+    #[test]
+    fn failing_sources_are_reported() {
+        for kind in 0..4 {
+            for fail_mask in [false, true] {
+                for ok in [0usize, 10, 1500] {
+                    let what = format!("representation {kind}, failing {} after {ok} bytes", if fail_mask { "mask" } else { "image" });
+                    let mut file = Cursor::new(Vec::new());
+                    let mut w = E57Writer::new(&mut file, "guid-file").expect(&what);
+                    let mut iw = w.add_image("guid-img").expect(&what);
+                    let mut good_img = Cursor::new(payload(1200, 7));
+                    let mut good_mask = Cursor::new(payload(900, 9));
+                    let mut bad = FailingSource { ok, given: 0 };
+                    let (img, mask): (&mut dyn Read, Option<&mut dyn Read>) = if fail_mask { (&mut good_img, Some(&mut bad)) } else { (&mut bad, Some(&mut good_mask)) };
+                    let r = match kind {
+                        0 => iw.add_visual_reference(ImageFormat::Png, img, VisualReferenceImageProperties { width: 3, height: 4 }, mask),
+                        1 => iw.add_pinhole(ImageFormat::Jpeg, img, PinholeImageProperties { width: 5, height: 6, focal_length: 1.5, pixel_width: 0.1, pixel_height: 0.2, principal_x: 2.0, principal_y: 3.0 }, mask),
+                        2 => iw.add_spherical(ImageFormat::Png, img, SphericalImageProperties { width: 7, height: 8, pixel_width: 0.3, pixel_height: 0.4 }, mask),
+                        _ => iw.add_cylindrical(ImageFormat::Jpeg, img, CylindricalImageProperties { width: 9, height: 10, radius: 2.5, principal_y: 1.0, pixel_width: 0.5, pixel_height: 0.6 }, mask),
+                    };
+                    assert!(r.is_err(), "{what}: the call reported success although the transfer failed");
+                }
             }
         }
     }
